@@ -48,3 +48,14 @@ package executor
 //@   modifies alloc, pauseTokens
 //@   ensures old(pauseTokens[rt.PauseMessages]) > 0 ==> result != nil && pauseTokens[rt.PauseMessages] == old(pauseTokens[rt.PauseMessages]) - 1
 //@   ensures old(pauseTokens[rt.PauseMessages]) == 0 ==> pauseTokens == old(pauseTokens)
+
+//@ -- a traversal that ended with an error other than a cancelled context (a pause is such an error): the remote is told
+//@ -- to stop (cancel to the request's own peer), the loader goes offline, and the manager is told how the task ended -
+//@ -- on every path, also when nobody listens for the error any more
+//@ func Executor.ExecuteTask
+//@   lenient
+//@   safety off
+//@   modifies alloc, pauseTokens, nStart, nTraversed
+//@   callsite Manager.SendRequest: assert arg0 == requestTask.P
+//@   callsite ReconciledLoader.SetRemoteOnline: assert arg0 == false
+//@   callsite Manager.ReleaseRequestTask: assert arg0 == pid && arg1 == task && arg2 == err
